@@ -40,6 +40,7 @@ fn main() {
 fn real_main(args: Vec<String>) -> i32 {
     match args[1].as_str() {
         "c08-child" => c08::child_main(),
+        "c04-dev" => c04::dev_child_main(args.get(2).map(|s| s.as_str()).unwrap_or("quick")),
         "c15-alone" => c15::alone_child_main(),
         "run" => {
             if args.len() < 4 {
@@ -70,6 +71,18 @@ fn real_main(args: Vec<String>) -> i32 {
                     return 2;
                 }
             };
+            // a violation found by the dev-profile child is replayed by the dev-profile binary
+            if v["replay"]["profile"].as_str() == Some("dev") && !cfg!(debug_assertions) && v["property"].as_str() == Some("C04") {
+                if let Ok(bin) = std::env::var("SIM_DEV") {
+                    return match std::process::Command::new(bin).arg("replay").arg(&args[2]).status() {
+                        Ok(st) => st.code().unwrap_or(2),
+                        Err(e) => {
+                            eprintln!("HARNESS ERROR: {e}");
+                            2
+                        }
+                    };
+                }
+            }
             let prop = v["property"].as_str().unwrap_or("").to_string();
             let want = v["key"].as_str().unwrap_or("").to_string();
             let got = match prop.as_str() {
